@@ -13,6 +13,7 @@ import Rare.Proofs.C15Starve
 import Rare.Proofs.C15Api
 import Rare.Proofs.C15Rename
 import Rare.Proofs.C15StatOpen
+import Rare.Proofs.C15StatOpenFull
 import Rare.Proofs.C15Replace
 import Rare.Proofs.C15CatchUp
 import Rare.Proofs.C15PollFull
@@ -1430,6 +1431,49 @@ example : ∃ s : NSt Nat, NReachO (srcN true) (ninit (some [1]) false) s ∧ s.
 example : ∃ s : NSt Nat, NReach (srcN false) (ninit (some [8, 9]) true) s ∧ s.removes = 0 ∧
     s.fs.content 0 = [8, 9, 5] ∧ s.delivered = [] :=
   ⟨_, .step (.refl (s0 := ninit (some [(8 : Nat), 9]) true)) (.append _ 0 [5] rfl (by decide)), rfl, rfl, rfl⟩
+
+/-! ## the `Stat`/`Open` split of `reopenIfReplaced` under the full writer -/
+
+/-- **stat_open_linearizable_full_writer.**  `stat_open_linearizable` with the FULL writer on both sides: the
+    state in which `Stat` is called is any reachable state of -F notify under {append, remove, create, rename
+    away, atomic replace}, and between the `Stat` and the `Open` the writer may do any of these (and the fsnotify
+    goroutine may dispatch).  A file renamed onto the path is a fresh inode as well, so "the file at the path is
+    not the open one" is stable: the split execution equals the atomic `reopenIfReplaced` at the `Open`, or – when
+    `Stat` saw the open file – does nothing (linearised at the `Stat`; a replacement that arrives after it has
+    queued its own `Create`, which raises the delete signal again: `reopen_follows_new_file`). -/
+theorem stat_open_linearizable_full_writer (c0 : Option (List β)) (tail : Bool) {s1 s2 : NSt β}
+    (hr : NReachO (srcN true) (ninit c0 tail) s1) (hs : EnvStepsO (srcN true) s1 s2) :
+    reopenAfterStat (sameFile s1) s2 = (if sameFile s1 then s2 else reopenIfReplaced s2) ∧
+    (sameFile s1 = true → reopenIfReplaced s1 = s1) ∧ s2.f = s1.f ∧ s2.delivered = s1.delivered := by
+  have hi := ninvO_reach (capW_ok true) (capD_ok true) rfl c0 tail hr
+  have halloc : ∀ h, s1.f = some h → h.ino < s1.fs.next := fun h hf =>
+    (hi.core.bounds h (by simp [hf])).2.2
+  have he := envInv_stepsO hs
+  refine ⟨?_, ?_, he.handle, he.delivered⟩
+  · cases hsf : sameFile s1 with
+    | true => simp [reopenAfterStat]
+    | false =>
+      have h2 := not_same_of_envInv he halloc hsf
+      simp [reopenAfterStat, reopenIfReplaced, h2]
+  · intro hsf; simp [reopenIfReplaced, hsf]
+
+/-- The basic environment is part of the full one (the theorem above extends `stat_open_linearizable`). -/
+theorem stat_open_env_extends (cfg : NCfg) {s1 s2 : NSt β} (hs : EnvSteps cfg s1 s2) : EnvStepsO cfg s1 s2 :=
+  envSteps_is_envStepsO hs
+
+/-- Non-vacuity, the two interesting interleavings.  (1) `Stat` sees the open file, THEN a new file is renamed onto
+    the path: the split execution keeps the old file – and the `Create` of the replacement is queued, it will raise
+    the delete signal again.  (2) `Stat` sees that the open file was renamed away, then a file is renamed onto the
+    path before the `Open`: the new file `[2,3]` is opened from its beginning. -/
+example : ∃ s1 s2 : NSt Nat, NReachO (srcN true) (ninit (some [1]) false) s1 ∧ EnvStepsO (srcN true) s1 s2 ∧
+    sameFile s1 = true ∧ s2.fs.path = some 1 ∧ reopenAfterStat (sameFile s1) s2 = s2 ∧ s2.evq = [.create] :=
+  ⟨_, _, .refl, .step (w := .writer) (by decide) (.replace _ 0 [2, 3] rfl) (.refl _), rfl, rfl, rfl, rfl⟩
+
+example : ∃ s1 s2 : NSt Nat, NReachO (srcN true) (ninit (some [1]) false) s1 ∧ EnvStepsO (srcN true) s1 s2 ∧
+    sameFile s1 = false ∧ (reopenAfterStat (sameFile s1) s2).f = some ⟨1, 0, 0⟩ ∧
+    (reopenAfterStat (sameFile s1) s2).hist = [⟨0, 0, 0⟩] ∧ s2.fs.content 1 = [2, 3] := by
+  refine ⟨_, _, .step .refl (.base (.rename _ 0 rfl)), .step (w := .writer) (by decide) (.base (.base (.create _ rfl)))
+    (.step (w := .writer) (by decide) (.base (.base (.append _ 1 [2, 3] rfl (by decide)))) (.refl _)), rfl, rfl, rfl, rfl⟩
 
 /-! ## the polling reader under the full writer (rotation by rename, atomic replace) -/
 
